@@ -2,7 +2,7 @@
 from . import e1
 
 OBJ_MENU = ["nan", "pinf", "ninf", "huge"]
-CON_MENU = ["nan", "pinf", "ninf"]
+CON_MENU = ["nan", "pinf", "ninf", "huge"]
 
 
 def default_menu(ent, case):
